@@ -1,7 +1,7 @@
 --------------------------- MODULE SubscriptionMC ---------------------------
 EXTENDS SubscriptionImpl
 MCClient == { <<>>, <<"stop">>, <<"stop", "stop">>, <<"stop", "terminate">>, <<"stop", "garbage">>, <<"stop", "reset">>,
-              <<"terminate">>, <<"garbage">>, <<"reset">> }
+              <<"terminate">>, <<"garbage">>, <<"reset">>, <<"restart">>, <<"restart", "terminate">>, <<"restart", "reset">> }
 MCUpstream == { <<>>, <<"data">>, <<"data", "data">>, <<"data", "complete">>, <<"complete">>, <<"drop">>, <<"data", "drop">>,
                 <<"error">>, <<"error", "data">>, <<"data", "error", "complete">> }
 MCStartFails == {TRUE, FALSE}
